@@ -49,10 +49,20 @@ PROPS = {
         "assumptions": ["vote infos carry non-negative powers with a positive total (CometBFT delivers the last commit of a non-empty set)"],
     },
     "C13": {
-        "module": "GoatProofs.C13",
-        "theorems": ["Goat.C13.comet_accept_basic", "Goat.C13.toInt64_small", "Goat.C13.F6b_power_2_63_refused"],
+        "module": ["GoatProofs.C13", "GoatProofs.C13H"],
+        "theorems": ["Goat.C13.comet_accept_basic", "Goat.C13.toInt64_small", "Goat.C13.F6b_power_2_63_refused",
+                     "Goat.C13H.rankOk_of_derived", "Goat.C13H.endBlocker_never_fails", "Goat.C13H.endBlocker_closed_form", "Goat.C13H.top_powers_descending",
+                     "Goat.C13H.valset_is_top", "Goat.C13H.valset_size_le_max", "Goat.C13H.valset_members_active", "Goat.C13H.valset_dominates",
+                     "Goat.C13H.valset_dominates_strict", "Goat.C13H.records_after", "Goat.C13H.frame_after", "Goat.C13H.rankOk_preserved",
+                     "Goat.C13H.accepted_unless_overflow_or_empty", "Goat.C13H.no_removal_of_non_member", "Goat.C13H.no_zero_power_addition",
+                     "Goat.C13H.no_duplicate_pubkey", "Goat.C13H.accepted_iff", "Goat.C13H.rejected_if_empty", "Goat.C13H.sync_after_every_block", "Goat.C13H.sync_genesis",
+                     "Goat.ValSet.comet_apply_spec", "Goat.ValSet.rankingDesc_sorted"],
         "streams": [{"name": "locking", "quick": 2500, "thorough": 40000, "seeds": 16}],
-        "assumptions": ["vote infos and evidence name validators known to the module (they were reported to CometBFT by it)"],
+        "assumptions": ["vote infos and evidence name validators known to the module (they were reported to CometBFT by it)",
+                        "RankOk (ranking = active/pending validators with positive power, recorded set consistent) holds before every EndBlocker: established by genesis import (C18.initGenesis_establishes_Derived + rankOk_of_derived), preserved by EndBlocker (rankOk_preserved); its preservation by the request / begin-block handlers is checked on every state dump by the monitor and by the state comparison, not yet proved (relation parameter `Between` of sync_after_every_block)",
+                        "downtime jail duration >= 0 (Params.Validate demands >= 1 minute)",
+                        "the two excluded failure modes are the recorded known findings F6b (total power above CometBFT's maximum) and F10 (set emptied)"],
+        "partial": "preservation of RankOk by lock/unlock/weight/vote/evidence handlers is monitored and differentially compared, not proved",
     },
     "C14": {
         "module": "GoatProofs.C14",
@@ -79,19 +89,23 @@ PROPS = {
                         "hash160 / taproot tweak values are stated by the harness (computed with btcd / x/crypto directly, independently of x/bitcoin/types)"],
     },
     "C05": {
-        "module": "GoatProofs.C05",
+        "module": ["GoatProofs.C05", "GoatProofs.C05H"],
         "theorems": ["Goat.C05.terminal_absorbing", "Goat.C05.Respects.trans", "Goat.C05.respects_insert", "Goat.C05.checkOutput_terms",
-                     "Goat.C05.process_go_spec", "Goat.C05.process_terms", "Goat.C05.paid_terms", "Goat.C05.approve_spec"],
+                     "Goat.C05.process_go_spec", "Goat.C05.process_terms", "Goat.C05.paid_terms", "Goat.C05.approve_spec",
+                     "Goat.C05H.replace_terms", "Goat.C05H.process_step", "Goat.C05H.replace_step", "Goat.C05H.finalize_step", "Goat.C05H.approve_step",
+                     "Goat.C05H.bridge_step", "Goat.C05H.bridge_effects", "Goat.C05H.newDeposits_step", "Goat.C05H.newBlockHashes_step", "Goat.C05H.newPubkey_step",
+                     "Goat.C05H.newConsolidation_step", "Goat.C05H.dequeue_spec", "Goat.C05H.dequeue_conserves", "Goat.C05H.history_inv", "Goat.C05H.history_respects",
+                     "Goat.C05H.history_edges", "Goat.C05H.history_terminal", "Goat.C05H.C05_history", "Goat.C05H.reused_id_paid_and_refund", "Goat.C05H.duplicate_ids_two_refunds"],
         "streams": [{"name": "bitcoin", "quick": 2500, "thorough": 30000, "seeds": 16}],
         "assumptions": ["withdrawal ids from the execution layer are fresh (bridge contract counter); id reuse is exercised by the generator but excluded from the monitor",
                         "address decoding is a parameter of the model (tied in C17); fee-rate comparison modelled in exact integers (DESIGN section 7)"],
-        "partial": "edges for ReplaceWithdrawal / FinalizeWithdrawal / ProcessBridgeRequest are checked by the monitor and the state comparison, not yet by a Lean theorem",
     },
     "C06": {
         "module": ["GoatProofs.C06", "GoatProofs.C08"], "facts": True,
         "theorems": ["Goat.C06.consecutive_number", "Goat.C06.btc_dequeue_spec", "Goat.C06.blockhashes_gapfree", "Goat.C06.locking_dequeue_spec", "Goat.C08.verifyDequeue_exact"],
         "streams": [{"name": "bitcoin", "quick": 2000, "thorough": 30000, "seeds": 16}, {"name": "locking", "quick": 1500, "thorough": 20000, "seeds": 8},
-                    {"name": "app-proposal", "quick": 700, "thorough": 4000, "seeds": 6}],
+                    {"name": "app-proposal", "quick": 700, "thorough": 4000, "seeds": 6},
+                    {"name": "relayer", "quick": 1500, "thorough": 12000, "seeds": 8}],
         "assumptions": ["RLP/ABI encoding of system transactions is goat-geth's (fields compared after decoding)"],
     },
     "C17": {
@@ -152,7 +166,8 @@ PROPS = {
         "module": "GoatProofs.C08", "facts": True,
         "theorems": ["Goat.C08.verifyDequeue_exact", "Goat.C08.processProposal_exact", "Goat.C08.accepted_wellformed", "Goat.C08.honest_accepted",
                      "Goat.C08.due_cap", "Goat.C08.no_conflicting_access"],
-        "streams": [{"name": "app-proposal", "quick": 900, "thorough": 6000, "seeds": 12}],
+        "streams": [{"name": "app-proposal", "quick": 900, "thorough": 6000, "seeds": 12},
+                    {"name": "app-proposal-shared", "quick": 400, "thorough": 2500, "seeds": 6}],
         "assumptions": ["the execution client's verdict on the payload is a scripted answer of the fake engine", "transaction decoding (protobuf, RLP of system transactions) is the real code's; the model sees canonical texts"],
     },
     "C09": {
@@ -191,7 +206,7 @@ PROPS = {
         "theorems": ["Goat.C19.commitTx_failed", "Goat.C19.failed_msg_changes_nothing", "Goat.C19.failed_tx_changes_nothing",
                      "Goat.C19.ante_rejects_before_handler", "Goat.C19.readonly_ops"],
         "streams": [{"name": "app-malformed", "quick": 900, "thorough": 6000, "seeds": 12}, {"name": "app", "quick": 700, "thorough": 4000, "seeds": 6},
-                    {"name": "relayer", "quick": 1200, "thorough": 8000, "seeds": 6}],
+                    {"name": "app-proposal", "quick": 900, "thorough": 5000, "seeds": 8}, {"name": "relayer", "quick": 1200, "thorough": 8000, "seeds": 6}],
         "assumptions": ["'cannot crash' is a statement about the Go runtime: decided by running the real application on malformed inputs (a crash of the harness process is the failing input); the model represents recovered panics as outcomes",
                         "per-transaction rollback is cosmos-sdk baseapp's (real code in the app streams)"],
         "partial": "crash freedom is sampled (byte-level mutations of every message type and of proposals), not proved; the rollback half is proved on the model",
